@@ -541,6 +541,80 @@ func monitorC05(g *groundTruth, c monCfg, attempts []fAttempt, gkOf func(group s
 	return nil
 }
 
+// monitorOutage (scenario app-outage-across-a-repeat only; no reloads or restarts in its alphabet): the resolved
+// notification stays owed through a receiver outage. If alert A was reported firing to an integration with
+// send_resolved, then resolved, and the integration was not accepting at that moment, the notification is due within B
+// of the moment the integration accepts again (monitorC05 only looks at integrations that accept throughout).
+// One case is a documented finding, not a violation of this check: the outage outlasted the notification-log entry
+// (2 x max(repeat_interval, group_interval) after the last successful notification) - the instance then no longer
+// knows that it ever told the receiver anything (DESIGN section 5).
+func monitorOutage(g *groundTruth, c monCfg, attempts []fAttempt, gkOf func(group string) string) *violation {
+	B := c.B()
+	for name, a := range g.alerts {
+		gk := gkOf(a.group)
+		for _, in := range c.integs {
+			if !in.SendResolved {
+				continue
+			}
+			key := integKey(in)
+			ds := okDeliveries(attempts, gk, c.receiver, key)
+			fs := g.firing(name)
+			if len(fs) != 1 { // one episode per alert in this scenario
+				continue
+			}
+			end := fs[0].to
+			if end >= g.horizon {
+				continue
+			}
+			var lastOK time.Duration = -1
+			told := false
+			for _, d := range ds {
+				if d.At < end {
+					if p, fi := d.lists(name); p && fi {
+						told = true
+					}
+				}
+			}
+			if !told {
+				continue
+			}
+			// from when on does the integration accept for good?
+			rec := end
+			for _, sp := range g.accepting(c.receiver + "/" + key) {
+				if sp.to >= g.horizon {
+					rec = max(end, sp.from)
+				}
+			}
+			if rec+B >= g.horizon {
+				continue
+			}
+			got := false
+			for _, d := range ds {
+				if d.At < rec {
+					lastOK = max(lastOK, d.At)
+				}
+				if d.At >= end && d.At <= rec+B {
+					if p, fi := d.lists(name); p && !fi {
+						got = true
+					}
+				}
+			}
+			// another alert of the group may have been reported meanwhile (the group then lists A as resolved along with it)
+			if got {
+				continue
+			}
+			sig := "resolution-not-reported-after-the-receiver-recovered"
+			lifetime := 2 * max(c.repeat, c.gi)
+			if lastOK >= 0 && rec > lastOK+lifetime {
+				sig = "resolution-lost/outage-longer-than-the-log-entry-lifetime"
+			}
+			return &violation{sig, fmt.Sprintf("alert %s was notified firing to %s/%s, ended at %v while the integration was failing; the integration accepts again from %v on (last successful notification of the group at %v, log entry lifetime %v), but no notification listed it resolved by %v; deliveries: %s",
+				name, c.receiver, key, end, rec, lastOK, lifetime, rec+B, fmtAttempts(ds))}
+		}
+	}
+	return nil
+}
+
 // monitorC04: notify only on change or after repeat_interval; repeats on time; resolved-only only after firing.
 func monitorC04(g *groundTruth, c monCfg, attempts []fAttempt, gkOf func(group string) string) *violation {
 	groups := map[string]bool{}
